@@ -74,9 +74,29 @@ def unknown_struct(fcp: "ref:FcpV2", i: "ref:Impl") -> "bool":
 
 
 # ---------------------------------------------------------------- node lists and the defunctionalised checks
-def field_nodes(fcp: "ref:FcpV2") -> "seq[ref:FieldNode]":
-    """all (struct, field) pairs, struct by struct"""
-    ...
+@pure
+def pair_lists(fcp: "ref:FcpV2") -> "seq[seq[tuple[ref,ref]]]":
+    return [[(s, f) for f in s.fields] for s in fcp.structs]
+
+
+@pure
+def field_nodes(fcp: "ref:FcpV2") -> "seq[tuple[ref,ref]]":
+    """all (struct, field) pairs, struct by struct, fields in declaration order"""
+    return flat_pairs(pair_lists(fcp), len(fcp.structs))
+
+
+@pure
+def fields_ok(fcp: "ref:FcpV2", n: "int") -> "bool":
+    """no struct among the first n has two fields with the same name (the clause of the statement)"""
+    return forall(0, n, lambda a: forall(0, len(fcp.structs[a].fields),
+                                         lambda b: not dup_field(fcp.structs[a], fcp.structs[a].fields[b])))
+
+
+@pure
+def flat_ok(fcp: "ref:FcpV2", n: "int") -> "bool":
+    """the same clause read off the flattened (struct, field) list of the first n structs"""
+    return forall(0, len(flat_pairs(pair_lists(fcp), n)),
+                  lambda i: not dup_field(flat_pairs(pair_lists(fcp), n)[i][0], flat_pairs(pair_lists(fcp), n)[i][1]))
 
 
 @pure
@@ -85,12 +105,14 @@ def known_category(c: "str") -> "bool":
             or c == "service" or c == "device")
 
 
+@pure
 def signal_block_nodes(fcp: "ref:FcpV2") -> "seq[ref:SignalBlock]":
-    ...
+    """all signal blocks, binding by binding"""
+    return flat_refs([i.signals for i in fcp.impls], len(fcp.impls))
 
 
 @pure
-def nodes(fcp: "ref:FcpV2", c: "str") -> "seq[ref]":
+def nodes(fcp: "ref:FcpV2", c: "str") -> "any":
     return ite(c == "struct", fcp.structs, ite(c == "enum", fcp.enums, ite(c == "impl", fcp.impls, ite(
         c == "field", field_nodes(fcp), ite(c == "signal_block", signal_block_nodes(fcp), ite(
             c == "type", fcp.structs + fcp.enums, ite(c == "service", fcp.services, fcp.devices)))))))
@@ -120,7 +142,7 @@ def wf_general(fcp: "ref:FcpV2") -> "bool":
     """C09, general rules: the six clauses of the statement"""
     return (forall(0, len(fcp.structs + fcp.enums), lambda i: not dup_typename(fcp, (fcp.structs + fcp.enums)[i]))
             and forall(0, len(fcp.impls), lambda i: not dup_impl(fcp, fcp.impls[i]))
-            and forall(0, len(field_nodes(fcp)), lambda i: not dup_field(field_nodes(fcp)[i].struct, field_nodes(fcp)[i].field))
+            and fields_ok(fcp, len(fcp.structs))
             and forall(0, len(fcp.structs), lambda i: not empty_struct(fcp.structs[i]))
             and forall(0, len(fcp.enums), lambda i: not dup_enumerator_name(fcp.enums[i]) and not dup_enumerator_value(fcp.enums[i]))
             and (len(fcp.devices) == 0 or not missing_service(fcp)))
